@@ -21,6 +21,9 @@ def alphabet():
     for f in (0, 1, 2, 7):
         for r in (0, 1):
             al.append(f"D:{f}:{r}:0:aa")
+    # DATA frames whose unstuffed bytes hold the escape byte followed by a byte that looks like an escaped reserved byte (0x7D 0x31 ...):
+    # in the control byte + first data byte, and inside the randomised data field (only the byte-level family tells them apart)
+    al += ["D:7:1:5:73", "D:0:0:0:3f10", "D:1:0:0:aa5c9b"]
     al += ["A:0:0:1", "A:0:1:6", "N:0:0:1", "N:1:0:4", "R", "K:2:11", "K:2:2", "K:2:85", "K:2:0", "E:2:81", "E:2:2", "E:2:0", "E:2:200", "D:3:0:1:-"]
     return al
 
